@@ -348,7 +348,8 @@ func (i *iteratorRole) IsEnabled() bool {
 	if i == nil || i.template == nil {
 		return false
 	}
-	return i.template.IsEnabled()
+	// `enabled` is evaluated for each generated role, the template itself is never processed
+	return true
 }
 
 func (i *iteratorRole) setParent(role Updatable) {
